@@ -134,6 +134,20 @@ CHECKS["C02"] = dict(
     technique="TLA+ exact point-in-polygon oracle + transcription of the ray-casting code checked equal by TLC; TLC-enumerated cases "
               "replayed on the code and validated by TLC (trace validation)")
 
+CHECKS["C01"] = dict(
+    level="exploration",
+    text="PolyOps.tla gives the point-set meaning of the four operations (exact even-odd membership over all rings of all members, "
+         "Bool(op)) and, for the rectilinear family (A on even, B on odd lattice lines), classifies every unit cell of the window on "
+         "both sides: the real result's rings (integral by construction) are evaluated by TLC with the same exact membership test, so "
+         "region, area, emptiness and closedness are decided exactly for every receiver/argument type combination. For valid lattice "
+         "triangles/quadrilaterals in general position (validity and general position decided by TLC) sample points with an exact "
+         "clear margin are compared. TLC also checks the box/box shortcut of Bounds.Intersection against the true common rectangle.",
+    design_ref="DESIGN.md section 5, C01",
+    note="Trusted: TLC, exactness of float64 on the small lattices, and for family F2 the harness's crossing-number routine that tells "
+         "whether a sample (>= 1/4 lattice unit from every operand edge) lies in the *result*. Operands are lattice polygons only.",
+    technique="TLA+ exact point-set oracle evaluated by TLC on recorded results of TLC-enumerated and random operand pairs (trace "
+              "validation); small TLC model of the box-intersection dispatch")
+
 NOT_YET = "check not built yet in this round of work; will be claimed when its specification, replay and trace validation exist"
 NA = {
     "C09": "oracle is proj4js 2.3.12 and closed-form geodesy (real-valued transcendental functions, a JavaScript program that "
